@@ -1,5 +1,6 @@
 import Pixman.Lemmas.GlyphStep
 import Pixman.Lemmas.GlyphRefine
+import Pixman.Lemmas.GlyphDup
 /-!
   C17 — glyph cache: property theorems.
 
@@ -159,6 +160,84 @@ theorem insert_succeeds_when_not_full {p : Params} (hp : 0 < p.hashSize) (h : Na
   · rfl
   · exact absurd rfl hnh
 
+/-! ## failed insertion (the cache cannot allocate its private copy of the image) -/
+
+/-- an insertion whose image copy cannot be allocated returns NULL and leaves table, counters,
+    freeze count and MRU list exactly as they were (only the history clock ticks) — for EVERY cache
+    state, no invariant needed -/
+theorem failed_insert_changes_nothing (p : Params) (h : Nat → Nat → Nat) (c : Cache) (font key : Nat) :
+    step p h c (.insertFail font key) = ({ c with clock := c.clock + 1 }, .refused) := by
+  unfold step; rw [stepCore_insertFail]
+
+/-- on a cache with the invariants a failed insertion has exactly the effect of a lookup of the same
+    key: none (a lookup is read-only) -/
+theorem failed_insert_eq_lookup_state {p : Params} (hp : 0 < p.hashSize) (h : Nat → Nat → Nat) {c : Cache}
+    (hc : Counted p c) (he : Slot.empty ∈ c.table) (font key : Nat) :
+    (step p h c (.insertFail font key)).1 = (step p h c (.lookup font key)).1 := by
+  rw [failed_insert_changes_nothing]
+  have hn := lookup_ne_none (h := h) hp hc.tab ((hasEmpty_iff hc.tab).mpr he) font key
+  unfold step
+  simp only [stepCore]
+  cases hl : lookup p h c font key with
+  | none => exact absurd hl hn
+  | some r => rfl
+
+/-- read a failed insertion as a lookup -/
+def failAsLookup : Op → Op
+  | .insertFail f k => .lookup f k
+  | o => o
+
+/-- in ANY history from the fresh cache, failed insertions can be replaced by lookups without
+    changing the final cache (table, counters, freeze count, MRU list, object names) -/
+theorem run_failed_inserts_change_nothing {p : Params} (hp : 0 < p.hashSize) (h : Nat → Nat → Nat)
+    (ops : List Op) :
+    (run p h (create p) ops).1 = (run p h (create p) (ops.map failAsLookup)).1 := by
+  have gen : ∀ (ops : List Op) (c : Cache), Counted p c → HasEmpty p c →
+      (run p h c ops).1 = (run p h c (ops.map failAsLookup)).1 := by
+    intro ops
+    induction ops with
+    | nil => intro c _ _; rfl
+    | cons o os ih =>
+      intro c hc he
+      have hem := (hasEmpty_iff hc.tab).mp he
+      have hst : (step p h c (failAsLookup o)).1 = (step p h c o).1 := by
+        cases o <;> first | rfl | exact (failed_insert_eq_lookup_state hp h hc hem _ _).symm
+      obtain ⟨s1, s2⟩ := step_ok (h := h) hp hc o
+      obtain ⟨n1, s3⟩ := s2 he
+      obtain ⟨_, s2'⟩ := step_ok (h := h) hp hc (failAsLookup o)
+      obtain ⟨n2, _⟩ := s2' he
+      simp only [List.map_cons]
+      unfold run
+      simp only
+      -- (`simp only` resolves both `match`es of `run` with `n1`, `n2`: neither step hangs)
+      rw [hst]; exact ih _ s1 s3
+  exact gen ops _ (create_counted p) (create_hasEmpty hp)
+
+/-- lookup_glyph reads the table only -/
+theorem lookup_of_table (p : Params) (h : Nat → Nat → Nat) {c c' : Cache} (ht : c'.table = c.table)
+    (f k : Nat) : lookup p h c' f k = lookup p h c f k := by
+  unfold lookup
+  generalize p.hashSize = fuel
+  generalize h f k = idx
+  induction fuel generalizing idx with
+  | zero => rfl
+  | succ n ih => unfold lookupFrom; rw [get_of_table ht, ih]
+
+/-- a failed insertion is a no-op on the abstract map (the recency-ordered list of live glyphs) and
+    preserves the refinement invariant — including reachability of every entry stored behind a
+    tombstone on the failing key's probe path -/
+theorem failed_insert_refines {p : Params} (hp : 0 < p.hashSize) {h : Nat → Nat → Nat} {c : Cache}
+    (hi : Inv p h c) (font key : Nat) :
+    Inv p h (step p h c (.insertFail font key)).1 ∧
+      (step p h c (.insertFail font key)).1.mru = c.mru ∧
+      (step p h c (.insertFail font key)).2 = .refused ∧
+      ∀ f k, lookup p h (step p h c (.insertFail font key)).1 f k = lookup p h c f k := by
+  have hs := step_refines hp hi (.insertFail font key) trivial
+  refine ⟨hs.1, ?_, ?_, ?_⟩
+  · rw [failed_insert_changes_nothing]
+  · rw [failed_insert_changes_nothing]
+  · intro f k; rw [failed_insert_changes_nothing]; exact lookup_of_table p h (c := c) (c' := { c with clock := c.clock + 1 }) rfl f k
+
 /-! ## eviction reaches the low-water mark -/
 
 /-- the fuel `hashSize + 1` of the eviction loop is never the reason it stops: after a thaw that
@@ -270,6 +349,7 @@ theorem entry_disappears_only_by_remove_or_thaw {p : Params} (hp : 0 < p.hashSiz
   cases o with
   | freeze => exact absurd hg hgone
   | lookup f k => exact absurd hg hgone
+  | insertFail f k => exact absurd hg hgone
   | insert f k =>
     simp only [absStep] at hgone
     split at hgone
@@ -292,6 +372,129 @@ theorem entry_disappears_only_by_remove_or_thaw {p : Params} (hp : 0 < p.hashSiz
   | thaw =>
     right
     simp only [absStep] at hgone
+    split at hgone
+    · rename_i hcond
+      refine ⟨rfl, by omega, hcond.2, ?_⟩
+      split at hgone
+      · rename_i ht; exact Or.inl ht
+      · exact Or.inr hgone
+    · exact absurd hg hgone
+
+/-! ## histories that insert a key already present (no discipline)
+
+The API calls this a caller error; the code does not check.  What it does: the new object goes into
+the first NULL-or-TOMBSTONE slot of the key's probe sequence, both objects stay live, and `lookup`
+/ `remove` / drawing act on the *visible* one — the first entry with the key in probe order.  The
+invariant `Inv0` (= `Inv` without `KeysUnique`: accounting, an empty slot, reachability) holds after
+EVERY history, and the cache is a faithful *multimap*; the map view of `run_refines_map` holds
+exactly under the discipline (`duplicate_insert_breaks_map_view`). -/
+
+/-- `Inv0` after every history whatsoever (duplicate insertions, failed insertions, …) -/
+theorem run_any_history_inv {p : Params} (hp : 0 < p.hashSize) (h : Nat → Nat → Nat) (ops : List Op) :
+    Inv0 p h (run p h (create p) ops).1 :=
+  run_general hp ops _ (create_inv0 hp h)
+
+/-- what lookup returns in any state reached by any history: NULL iff no live object has the key;
+    otherwise a live object `g` with the key, stored `d < HASH_SIZE` probes after the key's hash
+    slot, such that none of the `d` slots before it is empty or holds an object with the key
+    (`FirstAt`) — hence every other live object with the key comes strictly later in probe order -/
+theorem lookup_any_history {p : Params} (hp : 0 < p.hashSize) {h : Nat → Nat → Nat} {c : Cache}
+    (hi : Inv0 p h c) (font key : Nat) :
+    (lookup p h c font key = some none ∧ ∀ g, g ∈ c.mru → ¬(g.font = font ∧ g.key = key)) ∨
+    (∃ g d, lookup p h c font key = some (some g) ∧ g ∈ c.mru ∧ d < p.hashSize ∧
+        FirstAt p c font key (h font key) d g ∧
+        ∀ g' d', g' ≠ g → g'.font = font → g'.key = key → d' < p.hashSize →
+          c.get p (h font key + d') = .entry g' → d < d') := by
+  rcases lookup_general hp hi font key with hl | ⟨g, d, hl, hg, hd, hf⟩
+  · exact Or.inl hl
+  · refine Or.inr ⟨g, d, hl, hg, hd, hf, fun g' d' hne hf' hk' _ hget => ?_⟩
+    rcases Nat.lt_trichotomy d d' with hlt | heq | hgt
+    · exact hlt
+    · subst heq; rw [hf.1] at hget; exact absurd (by simpa using hget.symm) hne
+    · exact absurd ⟨hf', hk'⟩ ((hf.2.2.2 d' hgt).2 g' hget)
+
+/-- every API call in any history: `Inv0` is preserved and the list of live objects changes as
+    `absStepG` says — an accepted insert ALWAYS adds a new object (present key or not); `remove`
+    deletes exactly the visible object of the key (other objects with the key stay, the next in
+    probe order becomes visible); a failed insert changes nothing -/
+theorem step_any_history {p : Params} (hp : 0 < p.hashSize) {h : Nat → Nat → Nat} {c : Cache}
+    (hi : Inv0 p h c) (o : Op) :
+    Inv0 p h (step p h c o).1 ∧ ((step p h c o).1.mru, (step p h c o).2) = absStepG p h c o :=
+  step_general hp hi o
+
+/-- under the full invariant (unique keys) the multimap step is the map step -/
+theorem absStepG_eq_absStep {p : Params} (hp : 0 < p.hashSize) {h : Nat → Nat → Nat} {c : Cache}
+    (hi : Inv p h c) (o : Op) (hf : Fresh c o) : absStepG p h c o = absStep p c o := by
+  rw [← (step_general hp hi.toInv0 o).2, (step_refines hp hi o hf).2]
+
+/-- which object is visible after inserting a present key (see `duplicate_insert_lookup`) -/
+theorem duplicate_insert_shadowing {p : Params} (hp : 0 < p.hashSize) {h : Nat → Nat → Nat} {c : Cache}
+    (hi : Inv0 p h c) {font key d : Nat} {gOld : G}
+    (hold : FirstAt p c font key (h font key) d gOld)
+    (hfz : 0 < c.freeze) (hnf : full p c = false) :
+    (step p h c (.insert font key)).1.mru = ⟨c.clock, font, key⟩ :: c.mru ∧
+    ((∃ j, j < d ∧ c.get p (h font key + j) = .tomb) →
+      lookup p h (step p h c (.insert font key)).1 font key = some (some ⟨c.clock, font, key⟩)) ∧
+    ((∀ j, j < d → c.get p (h font key + j) ≠ .tomb) →
+      lookup p h (step p h c (.insert font key)).1 font key = some (some gOld)) :=
+  duplicate_insert_lookup hp hi hold hfz hnf
+
+/-- the discipline is exactly what the map view needs: an accepted insertion of a present key
+    leaves two live objects with one key -/
+theorem duplicate_insert_breaks_map_view {p : Params} (hp : 0 < p.hashSize) {h : Nat → Nat → Nat}
+    {c : Cache} (hi : Inv0 p h c) {font key : Nat} {g : G} (hg : g ∈ c.mru)
+    (hk : g.font = font ∧ g.key = key) (hfz : 0 < c.freeze) (hnf : full p c = false) :
+    ¬ KeysUnique p (step p h c (.insert font key)).1 :=
+  duplicate_insert_not_unique hp hi hg hk hfz hnf
+
+/-- in ANY history an object disappears only through a `remove` of its key that finds it visible,
+    or through an evicting thaw (least recently used first) -/
+theorem entry_disappears_only_by_remove_or_thaw_any_history {p : Params} (hp : 0 < p.hashSize)
+    {h : Nat → Nat → Nat} {c : Cache} (hi : Inv0 p h c) (o : Op) (g : G)
+    (hg : g ∈ c.mru) (hgone : g ∉ (step p h c o).1.mru) :
+    (o = .remove g.font g.key ∧ lookup p h c g.font g.key = some (some g)) ∨
+      (o = .thaw ∧ c.freeze = 1 ∧ c.nGlyphs + c.nTomb > (p.high : Int) ∧
+        (c.nTomb > (p.high : Int) ∨ g ∉ c.mru.take p.low)) := by
+  have habs := (step_general hp hi o).2
+  have hm : (step p h c o).1.mru = (absStepG p h c o).1 := by rw [← habs]
+  rw [hm] at hgone
+  cases o with
+  | freeze => exact absurd hg hgone
+  | lookup f k => exact absurd hg hgone
+  | insertFail f k => exact absurd hg hgone
+  | insert f k =>
+    simp only [absStepG] at hgone
+    split at hgone
+    · exact absurd hg hgone
+    · exact absurd (List.mem_cons_of_mem _ hg) hgone
+  | touch f k =>
+    simp only [absStepG] at hgone
+    split at hgone
+    · rename_i g0 _
+      by_cases hgg : g = g0
+      · subst hgg; exact absurd List.mem_cons_self hgone
+      · exact absurd (List.mem_cons_of_mem _ (List.mem_filter.mpr ⟨hg, by simpa using hgg⟩)) hgone
+    · exact absurd hg hgone
+  | remove f k =>
+    left
+    simp only [absStepG] at hgone
+    split at hgone
+    · rename_i g0 hv
+      have hgg : g = g0 := by
+        by_cases hgg : g = g0
+        · exact hgg
+        · exact absurd (List.mem_filter.mpr ⟨hg, by simpa using hgg⟩) hgone
+      subst hgg
+      rcases lookup_general hp hi f k with ⟨hl, _⟩ | ⟨g1, d, hl, _, _, hf⟩
+      · simp [visible, hl] at hv
+      · have : g1 = g := by simpa [visible, hl] using hv
+        subst this
+        rw [hf.2.1, hf.2.2.1]
+        exact ⟨rfl, hl⟩
+    · exact absurd hg hgone
+  | thaw =>
+    right
+    simp only [absStepG] at hgone
     split at hgone
     · rename_i hcond
       refine ⟨rfl, by omega, hcond.2, ?_⟩
@@ -339,5 +542,38 @@ example : Inv p4 h4 (run p4 h4 (create p4) [.freeze, .insert 0 0, .insert 0 4, .
 
 example : (run p4 h4 (create p4) [.freeze, .insert 0 0, .insert 0 4, .remove 0 0]).1.table =
     [.tomb, .entry ⟨2, 0, 4⟩, .empty, .empty] := by decide
+
+/-- a failed insertion over that tombstone (the seeded regression turned it into an empty slot,
+    making key 4 unreachable): nothing changes, key 4 is still found -/
+example : (run p4 h4 (create p4) [.freeze, .insert 0 0, .insert 0 4, .remove 0 0, .insertFail 0 0,
+      .lookup 0 4]).2 = [.unit, .inserted ⟨1, 0, 0⟩, .inserted ⟨2, 0, 4⟩, .unit, .refused,
+      .found (some ⟨2, 0, 4⟩)] ∧
+    (run p4 h4 (create p4) [.freeze, .insert 0 0, .insert 0 4, .remove 0 0, .insertFail 0 0]).1.table =
+      [.tomb, .entry ⟨2, 0, 4⟩, .empty, .empty] := by decide
+
+/-- duplicate insertion, no tombstone before the old object: the new object (id 2) is shadowed;
+    `remove` deletes the old one and the new one becomes visible; a second `remove` deletes it -/
+example : (run p4 h4 (create p4) [.freeze, .insert 0 0, .insert 0 0, .lookup 0 0, .remove 0 0,
+      .lookup 0 0, .remove 0 0, .lookup 0 0]).2 =
+    [.unit, .inserted ⟨1, 0, 0⟩, .inserted ⟨2, 0, 0⟩, .found (some ⟨1, 0, 0⟩), .unit,
+      .found (some ⟨2, 0, 0⟩), .unit, .found none] := by decide
+
+/-- duplicate insertion with a tombstone before the old object (key 4 lives in slot 1 behind the
+    tombstone of key 0): insert_glyph reuses the tombstone, the NEW object (id 4) shadows the old -/
+example : (run p4 h4 (create p4) [.freeze, .insert 0 0, .insert 0 4, .remove 0 0, .insert 0 4,
+      .lookup 0 4, .remove 0 4, .lookup 0 4]).2 =
+    [.unit, .inserted ⟨1, 0, 0⟩, .inserted ⟨2, 0, 4⟩, .unit, .inserted ⟨4, 0, 4⟩,
+      .found (some ⟨4, 0, 4⟩), .unit, .found (some ⟨2, 0, 4⟩)] := by decide
+
+/-- hypotheses of `duplicate_insert_shadowing` (both branches) are satisfiable -/
+example : FirstAt p4 (run p4 h4 (create p4) [.freeze, .insert 0 0, .insert 0 4, .remove 0 0]).1
+    0 4 (h4 0 4) 1 ⟨2, 0, 4⟩ ∧
+    (run p4 h4 (create p4) [.freeze, .insert 0 0, .insert 0 4, .remove 0 0]).1.get p4 (h4 0 4 + 0) = .tomb := by
+  refine ⟨⟨by decide, rfl, rfl, fun j hj => ?_⟩, by decide⟩
+  have : j = 0 := by omega
+  subst this
+  have ht : (run p4 h4 (create p4) [.freeze, .insert 0 0, .insert 0 4, .remove 0 0]).1.get p4 (h4 0 4 + 0) = .tomb := by
+    decide
+  exact ⟨by rw [ht]; simp, fun g' hg' => by rw [ht] at hg'; cases hg'⟩
 
 end Pixman.Props.C17
